@@ -44,6 +44,10 @@ EVENT_LINES = [
     # storyboard elements spelled by name, with a usable file name, and their (indented) command lines
     'Sprite,Background,Centre,"SB\\bg.png",320,240', 'Sprite,Foreground,TopLeft,fg.png,0,0', 'Animation,Fail,Centre,"anim.png",320,240,4,100,LoopForever',
     'Sample,100,0,"s.wav",80', ' F,0,0,1000,0,1', '_M,0,0,1000,320,240,100,100', '  S,0,500,,1.5', ' L,0,3',
+    # nested directories written with single Windows separators, runs of separators of every length, mixed with `/` (seed C11-o: a one-pass rewrite
+    # of clean_filename whose "previous was a backslash" flag survives ordinary characters)
+    '0,0,"sb\\bg\\image.jpg",0,0'.replace('\\\\', '\\'), '0,0,"a\\b\\c\\d.jpg"'.replace('\\\\', '\\'), 'Video,0,"sb\\bg\\image.png"'.replace('\\\\', '\\'),
+    'Sprite,Background,Centre,"x\\y\\z.png",1,1'.replace('\\\\', '\\'), '0,0,a\\\\b\\c\\\\\\d\\e.jpg', '0,0,"\\a\\"', '0,0,a/b\\c/d\\e.png'.replace('\\\\', '\\'),
 ]
 COLOR_LINES = [
     "Combo1 : 1,2,3", "Combo2: 255,255,255,0", "Combo1: 256,0,0", "Combo: 1,2", "Combo9: 1,2,3,4,5", "SliderBorder: 1,2,3",
@@ -269,6 +273,11 @@ class C11(Property):
         for a in EVENT_LINES:
             for b in EVENT_LINES[:30]:
                 add("events", [a, b], "pair")
+        # file names over a small alphabet rich in separators and quotes, in every event kind that carries one
+        for _ in range(300 if tier == "quick" else 3000):
+            name = "".join(rng.choice('ab.\\\\\\//"" ') for _ in range(rng.randint(1, 12)))
+            form = rng.choice(['0,0,{n},0,0', '0,0,"{n}"', 'Video,0,"{n}.png"', '1,0,{n}.mp4', 'Sprite,Background,Centre,"{n}",1,1', '4,0,0,{n}'])
+            add("events", [form.format(n=name)], "separator-rich-file-name")
         for l in COLOR_LINES:
             add("colors", [l], "single")
         for a in COLOR_LINES:
